@@ -227,12 +227,20 @@ pub fn fresh_fbig<R: dashu_float::round::Round, const B: Word>(v: &FBig<R, B>) -
     FBig::from_repr(dashu_float::Repr::new(sig, v.repr().exponent()), ctx)
 }
 pub fn fresh_rbig(v: &RBig) -> RBig {
-    // goes through Relaxed to avoid reducing: a non-canonical RBig keeps its components
-    // (RBig::from_parts would canonicalize; we want the same value either way, canonical if the source was)
-    RBig::from_parts(fresh_ibig(v.numerator()), fresh_ubig(v.denominator()))
+    let r = RBig::from_parts(fresh_ibig(v.numerator()), fresh_ubig(v.denominator()));
+    if r.numerator() != v.numerator() || r.denominator() != v.denominator() {
+        // not in canonical form (a torn composite left behind by a failed operation): the public
+        // constructors cannot reproduce it, keep it as it is rather than invent a different value
+        return v.clone();
+    }
+    r
 }
 pub fn fresh_relaxed(v: &Relaxed) -> Relaxed {
-    Relaxed::from_parts(fresh_ibig(v.numerator()), fresh_ubig(v.denominator()))
+    let r = Relaxed::from_parts(fresh_ibig(v.numerator()), fresh_ubig(v.denominator()));
+    if r.numerator() != v.numerator() || r.denominator() != v.denominator() {
+        return v.clone();
+    }
+    r
 }
 
 // ------------------------------------------------------------------------------------------
